@@ -27,7 +27,7 @@ class Group:
     """One obligation group = one goto binary = one cbmc run."""
 
     def __init__(self, name, harness, entry, extract=(), enforce=None, replace=(), loops=False,
-                 defines=None, cbmc=(), timeout=900, unwind=None, tags=(), instance=None,
+                 defines=None, cbmc=(), timeout=2400, unwind=None, tags=(), instance=None,
                  thorough_only=False, bounded=False, replay=None, nondet_static=False, note='', backend=None, gen=None, enforce_rec=False):
         self.name = name
         self.harness = harness
